@@ -486,6 +486,11 @@ pub fn corner_files() -> Vec<(Cfg, Vec<Entry>)> {
     for codec in 1..6u8 {
         v.push((c(codec, 1024, 8, 1), vec![(vec![1u8], vec![0x61u8; 300_000]), (vec![2u8], vec![0u8; 70_000]), (vec![3u8], b"abcabcabc".repeat(20_000))]));
     }
+    // values that look like block offsets (8 bytes, big-endian, increasing): a reader guessing the
+    // kind of a block from its content would take data blocks for index blocks
+    v.push((c(0, 1024, 8, 0), (0..60u64).map(|i| ((i as u32 * 2).to_be_bytes().to_vec(), (i * 1000).to_be_bytes().to_vec())).collect()));
+    v.push((c(5, 1024, 8, 0), vec![(vec![9u8; 3000], 0u64.to_be_bytes().to_vec())]));
+    v.push((c(0, 1024, 1, 2), (0..40u64).map(|i| (long_key(i as u32 + 1), (i * 1256).to_be_bytes().to_vec())).collect()));
     v
 }
 
